@@ -778,3 +778,69 @@ def check_config_defaults(ck, rule, fields):
     okk = isinstance(dflt, ast.Call) and dump(dflt.func) == "Config" and not dflt.args and not dflt.keywords
     ck.require(okk, rule, "config.DEFAULT", "Config() with the documented defaults",
                "the shared default configuration is built as `%s`, not as a bare Config()" % (dump(dflt) if dflt is not None else None), "jsonrpclib/config.py")
+
+
+def _mutable_display(e):
+    return isinstance(e, (ast.List, ast.Dict, ast.Set, ast.ListComp, ast.DictComp, ast.SetComp)) or (
+        isinstance(e, ast.Call) and isinstance(e.func, ast.Name) and e.func.id in ("list", "dict", "set", "bytearray", "deque", "defaultdict", "OrderedDict"))
+
+
+def check_no_shared_mutable(ck, rule, modules=None):
+    """State that is meant to belong to one object or one call is not shared: (a) a mutable container bound at class level
+    and modified through `self.<name>` by a method without the constructor rebinding it per instance; (b) a mutable default
+    argument that the function modifies, stores or returns.  Read-only class-level tables are not concerned."""
+    prog = ck.prog
+    n_ = 0
+    for ci in prog.classes.values():
+        if modules is not None and ci.module not in modules:
+            continue
+        shared = dict((t.id, st) for st in ci.node.body if isinstance(st, ast.Assign) and _mutable_display(st.value)
+                      for t in st.targets if isinstance(t, ast.Name))
+        if not shared:
+            continue
+        init = ci.methods.get("__init__")
+        rebound = set()
+        if init is not None:
+            rebound = set(t.attr for st in ast.walk(init.node) if isinstance(st, ast.Assign) for t in st.targets
+                          if isinstance(t, ast.Attribute) and dump(t.value) == "self")
+        for fi in ci.methods.values():
+            for (n, desc, recv) in mutations(fi):
+                base = recv
+                while isinstance(base, (ast.Subscript, ast.Attribute)) and not (isinstance(base, ast.Attribute) and dump(base.value) == "self"):
+                    base = base.value
+                if isinstance(base, ast.Attribute) and dump(base.value) == "self" and base.attr in shared and base.attr not in rebound \
+                        and not desc.startswith("store self." + base.attr + " "):
+                    n_ += 1
+                    ck.bad(rule, "%s.%s: class-level container `%s` modified through self" % (ci.module, ci.qual, base.attr),
+                           "`%s` is bound once at class level (`%s`) and %s modifies it through self (%s): all instances of %s share it, so the "
+                           "state of one object (one proxy, one server, one request) leaks into the others"
+                           % (base.attr, dump(shared[base.attr])[:50], fi.name, desc, ci.qual), q.loc(fi, n))
+    for fi in prog.funcs.values():
+        if modules is not None and fi.module not in modules:
+            continue
+        a = fi.node.args
+        names = [x.arg for x in a.args]
+        defaults = list(zip(names[len(names) - len(a.defaults):], a.defaults)) + \
+            [(x.arg, d) for x, d in zip(a.kwonlyargs, a.kw_defaults) if d is not None]
+        for (p, d) in defaults:
+            if not _mutable_display(d):
+                continue
+            g = cfg_of(fi)
+            used = False
+            for (n, desc, recv) in mutations(fi):
+                t = prov.origin(g, n, recv)
+                if prov.contains(t, lambda x: x == ("param", p)):
+                    used = True
+            for st in ast.walk(fi.node):
+                if isinstance(st, ast.Assign) and isinstance(st.value, ast.Name) and st.value.id == p and \
+                        any(isinstance(t, ast.Attribute) for t in st.targets):
+                    used = True
+                if isinstance(st, ast.Return) and isinstance(st.value, ast.Name) and st.value.id == p:
+                    used = True
+            if used:
+                n_ += 1
+                ck.bad(rule, "%s: mutable default argument `%s=%s`" % (q.fn(fi), p, dump(d)[:30]),
+                       "the default value of `%s` is one object created when the function is defined, and %s modifies, stores or returns it: "
+                       "calls that rely on the default share (and accumulate) its content" % (p, fi.name), q.loc(fi, fi.node))
+    ck.ok(rule, "package: shared mutable class attributes / default arguments", "none (%d classes, %d functions scanned)" % (len(prog.classes), len(prog.funcs)), "")
+    return n_
